@@ -55,7 +55,7 @@ def backbone(bases, phipsi):
     return out
 
 
-def peptide(seq, rng, conf=None, hydrogens="none", cterm_oxt=True):
+def peptide(seq, rng, conf=None, hydrogens="none", cterm_oxt=True, nterm_amide=False):
     """seq: list of input residue names (may be variants like ASH, HID).  Returns list of residue dicts.
 
     hydrogens: none | all | side (template side-chain + HA hydrogens) | some (random subset)
@@ -85,8 +85,8 @@ def peptide(seq, rng, conf=None, hydrogens="none", cterm_oxt=True):
                     continue
                 if hydrogens == "some" and rng.random() < 0.5:
                     continue
-                if an == "H" and (i == 0 or base == "PRO"):
-                    continue
+                if an == "H" and ((i == 0 and not nterm_amide) or base == "PRO"):
+                    continue          # nterm_amide: the first residue keeps its amide H (a re-fed protonated file)
                 # protonation variants: drop hydrogens the named state does not have
                 if resn in topo.VARIANTS:
                     _, patches, _ = topo.load()
